@@ -46,9 +46,8 @@ def Acc.render (a : Acc) : String :=
   match a.v.fails with
   | f :: _ => "fail " ++ f
   | [] =>
-    if a.illcond then "skip ill_conditioned"
-    else match a.v.diffs with
-      | d :: _ => "diff " ++ d
+    match a.v.diffs with
+      | d :: _ => if a.illcond then "skip ill_conditioned" else "diff " ++ d
       | [] => if a.undecided > 0 then "skip undecided_certificate" else a.v.render
 
 def checkRemoved (comp : String) (S : Nat) (eps : Rat) (arr : List Vec) (e : Nat) (certs : List Cert) (a : Acc) : Acc :=
@@ -102,9 +101,9 @@ def ed : P String := do
   let m := extractDominated dominates xs
   let M := maxAbsL xs
   let eps := (n : Rat) * linkSlack M + tiny M
-  let a : Acc := { v := { tag := if n < 2 then "ed trivial" else "ed" }, illcond := false }
   let ill := domMargin xs < 1 / 1000000000000
-  let a := if ill then a else { a with v := a.v.diffIf (m.1 ++ m.2 != arr || m.1.length != e) s!"extractDominated model_kept={m.1.length} impl_kept={e}" }
+  let a : Acc := { v := { tag := if n < 2 then "ed trivial" else "ed" }, illcond := ill }
+  let a := { a with v := a.v.diffIf (m.1 ++ m.2 != arr || m.1.length != e) s!"extractDominated model_kept={m.1.length} impl_kept={e}" }
   let a := { a with v := a.v.failIf (!(isPermB xs arr) || e > n) "extractDominated not_a_permutation" }
   let a := checkRemoved "extractDominated" S eps arr e certs a
   -- no kept vector is pairwise dominated by another kept one by more than the chain slack
@@ -121,10 +120,10 @@ def edi : P String := do
   let all := old ++ new
   let M := maxAbsL all
   let eps := (all.length : Rat) * linkSlack M + tiny M
-  let a : Acc := { v := { tag := if all.length < 2 then "edi trivial" else "edi" } }
   let ill := domMargin all < 1 / 1000000000000
+  let a : Acc := { v := { tag := if all.length < 2 then "edi trivial" else "edi" }, illcond := ill }
   let mi1 := o.oldGood.length; let mi2 := mi1 + o.newGood.length; let mi3 := mi2 + o.oldBad.length
-  let a := if ill then a else { a with v := a.v.diffIf (o.array != arr || (mi1, mi2, mi3) != (i1, i2, i3)) s!"extractDominatedIncremental model=({mi1},{mi2},{mi3}) impl=({i1},{i2},{i3})" }
+  let a := { a with v := a.v.diffIf (o.array != arr || (mi1, mi2, mi3) != (i1, i2, i3)) s!"extractDominatedIncremental model=({mi1},{mi2},{mi3}) impl=({i1},{i2},{i3})" }
   let a := { a with v := a.v.failIf (!(isPermB all arr)) "extractDominatedIncremental not_a_permutation" }
   let okIdx := i1 ≤ i2 && i2 ≤ i3 && i3 ≤ arr.length
   let a := { a with v := a.v.failIf (!okIdx) "extractDominatedIncremental ranges_out_of_order" }
@@ -153,15 +152,20 @@ def prune : P String := do
   let certs ← certsP; let need ← certsP; P.eof
   let M := maxAbsL xs
   let eps := (n : Rat) * linkSlack M + tiny M
-  let a : Acc := { v := { tag := if n < 2 then "prune trivial" else "prune" } }
-  let ill := domMargin xs < 1 / 1000000000000
+  -- a comparison of the model is ill-conditioned when a `dominates` test sits on its threshold, or when two different
+  -- vectors are within 1e-9 of the maximum at a witness point (findBestAtPoint decides by floating-point rounding)
+  let nearTie := fun (w : Vec) =>
+    let mx := xs.foldl (fun m x => maxQ m (dot w x)) (dot w (xs.getD 0 []))
+    decide (1 < ((xs.filter (fun x => decide (mx - tiny M * (1 + sumL w) < dot w x))).eraseDups).length)
+  let ill := domMargin xs < 1 / 1000000000000 || calls.any (fun c => match c.w with | some w => nearTie w | none => false)
+  let a : Acc := { v := { tag := if n < 2 then "prune trivial" else "prune" }, illcond := ill }
   -- L2b: run the model with the recorded oracle answers
   let oracle : List Vec → Vec → Option Vec := fun best v =>
     match calls.find? (fun c => c.best == best && c.v == v) with
     | some c => c.w
     | none => none
   let m := pruner dominates oracle S xs
-  let a := if ill || !same then a else { a with v := a.v.diffIf (m.1 ++ m.2 != arr || m.1.length != e) s!"Pruner model_kept={m.1.length} impl_kept={e}" }
+  let a := if !same then a else { a with v := a.v.diffIf (m.1 ++ m.2 != arr || m.1.length != e) s!"Pruner model_kept={m.1.length} impl_kept={e}" }
   -- oracle contract on the recorded answers (the library's own WitnessLP)
   let badW := calls.any (fun c => match c.w with
     | some w => match normalize w with
@@ -245,6 +249,12 @@ def clausesCommon (comp : String) (i : InterpIn) (cv : Vec) (value : Rat) (w : V
   let v := v.failIf (w.length != i.S + i.N) s!"{comp} weights_wrong_size {w.length}"
   let bad := (List.range i.S).any (fun s => decide (tolR < absQ (reconAt i.point wc wp i.pts s)))
   let v := v.failIf bad s!"{comp} weights_do_not_reconstruct {showVec w}"
+  -- sharper than the tolerance of the reconstruction test: a stored point that is not on the query's face (the query is
+  -- "zero" where the point is not) can never take part in a reconstruction, whatever its distance from the face
+  let zero := idxWhere isZeroS i.point
+  let offFace := (List.range i.N).any (fun j => decide (Gen.equalToleranceSmall < wp.getD j 0) &&
+      zero.any (fun s => !isZeroS ((i.pts.getD j []).getD s 0)))
+  let v := v.failIf offFace s!"{comp} weight_on_point_off_the_query_face {showVec w}"
   -- "non-negative up to the documented tolerance": the zero test of both functions lets a coordinate in (0, 1e-6]
   -- count as zero, which can leave a corner weight of that size below zero (`sawtooth_repaired_weights_needs_hz`)
   let v := v.failIf (w.any (fun x => decide (x < -Gen.equalToleranceSmall))) s!"{comp} weights_negative {showVec w}"
